@@ -151,6 +151,23 @@ def rule_sto(ctx, tu):
     ctx.floor(R, 12)
 
 
+def rule_forms(ctx, tu):
+    """after Init every store to the state is an increment / decrement (stoichiometric, paired or Euler): an
+    assignment overwrites an amount and breaks every conservation law that entry takes part in"""
+    R = "C02.FORMS"
+    n = 0
+    for c in tu.classes.values():
+        for m in c.methods.values():
+            if m.body is None or m.name == "Init":
+                continue
+            for u in upd.summaries(m, {"mesh_x"}):
+                n += 1
+                ctx.check(u.op in ("+=", "-=", "++", "--"), R, u.node, m.qual, text(u.node)[:90],
+                          "an increment / decrement", "the state entry is overwritten (`%s`) instead of being incremented: "
+                          "what the entry loses or gains is not accounted for anywhere else" % u.op)
+    ctx.floor(R, 14)
+
+
 def rule_writers(ctx, tu, eff):
     R = "C02.WRITERS"
     for c in tu.classes.values():
@@ -242,6 +259,7 @@ def run(ctx):
     rule_pair(ctx, tu)
     rule_sto(ctx, tu)
     rule_writers(ctx, tu, eff)
+    rule_forms(ctx, tu)
     rule_antisym(ctx, tu)
     ctx.assume("floating-point exactness of the Euler sums is not decided; opposed_direction is an involution pairing "
                "opposite moves (C15.DISP); the stoichiometric matrix layout is C01.LAYOUT / C19.MATRIX")
